@@ -185,6 +185,7 @@ type pathState struct {
 	nassert   int
 	onceDone  map[*value]bool
 	known     map[uint64][]knownEnt
+	jsonReg   *jsonRegistry
 	curModel  map[string]uint64 // a model of the current path condition, if known
 	fresh     int
 }
